@@ -15,6 +15,10 @@ proxy's own listening address produces `close` and no CONNECT.
 """
 import errno
 import io
+import os
+import shutil
+import tempfile
+import threading
 import ipaddress
 import socket
 import struct
@@ -31,7 +35,8 @@ RULE = ("cases = (recovery mechanism, family, destination address, destination p
         "texts; a case is non-trivial when it reached the server's connect/sendto, took an error branch or "
         "hit the self-address guard (listener bound to wildcard / loopback / LAN address x dialled local address); "
         "UDP also as sequences of 2-5 datagrams from 1-3 sources where one source addresses several destinations "
-        "within one association; distinct = distinct canonical model-input line(s)")
+        "within one association; pf also as whole sessions (real FirewallClient and real firewall.main('pf') loop over a "
+        "socket pair) interleaving HOST lines, some with a failing hosts-file rewrite, and 2-8 connections; distinct = distinct canonical model-input line(s)")
 MANIFEST = dict(
     level_text=("Machine-checked Lean 4 theorems over a statement-by-statement model of original_dst, the tproxy/ipfw "
                 "cmsg decoding, the pf QUERY_PF_NAT dialogue, the CONNECT / UDP header encoders of the client, the "
@@ -261,6 +266,8 @@ class Env:
             def bind(self_inner, addr):
                 env.islocal_calls.append((addr[0], family))
                 s = env.islocal_script
+                if callable(s):
+                    s = s(addr[0])
                 if s == 'y':
                     return
                 if s == 'n':
@@ -314,6 +321,8 @@ class Env:
         return m
 
     def _ioctl(self, fd, req, buf):
+        if req != self.pfm.pf.DIOCNATLOOK:
+            return 0                # rule / anchor ioctls of set-up and tear-down: accepted, no effect
         raw = bytes(buf)
         self.ioctl_seen.append(raw)
         res = self.kernel(raw)
@@ -1223,6 +1232,280 @@ def stream_udp(ctx, env, logs):
         logs.append(Log('cmsg-ipfw').add(cmsg_line('i', lst.delivered if lst.delivered is not None else items), out))
 
 
+# ---------------------------------------------------------------- pf: whole sessions over the helper channel
+
+class HelperProc:
+    """Stands in for subprocess.Popen(<sshuttle --firewall>): the real firewall.main('pf') loop runs in a
+    thread on the socket the real FirewallClient handed over as the child's stdin/stdout."""
+
+    def __init__(self, firewall, chan_sock):
+        self.pid = 4243
+        self.returncode = None
+        self.exc = None
+        hs = chan_sock.dup()
+        hs.settimeout(None)
+        self.hs = hs
+        self.rf = hs.makefile('rb')
+        self.wf = hs.makefile('wb')
+        self.firewall = firewall
+        firewall.setup_daemon = lambda: (self.rf, self.wf)
+        self.t = threading.Thread(target=self._run, daemon=True)
+        self.t.start()
+
+    def _run(self):
+        rc = 0
+        try:
+            self.firewall.main('pf', False)
+        except BaseException as e:  # noqa  (Fatal, OSError from the hosts rewrite, SystemExit)
+            self.exc = e
+            rc = 1
+        finally:
+            for f in (self.rf, self.wf):
+                try:
+                    f.close()
+                except Exception:  # noqa
+                    pass
+            try:
+                self.hs.shutdown(socket.SHUT_RDWR)
+            except OSError:
+                pass
+            self.hs.close()
+            self.returncode = rc
+
+    def poll(self):
+        return None if self.t.is_alive() else self.returncode
+
+    def wait(self, timeout=None):
+        self.t.join(timeout if timeout is not None else 10)
+        return self.returncode
+
+
+class RecFile:
+    """Observation only: what the client wrote to / read from the helper channel."""
+
+    def __init__(self, f):
+        self.f = f
+        self.reads = []
+        self.writes = []
+
+    def write(self, b):
+        self.writes.append(bytes(b))
+        return self.f.write(b)
+
+    def flush(self):
+        return self.f.flush()
+
+    def readline(self, *a):
+        l = self.f.readline(*a)
+        self.reads.append(bytes(l))
+        return l
+
+    def close(self):
+        return self.f.close()
+
+
+def run_pf_session(ctx, env, logs, case):
+    """The real FirewallClient and the real firewall.main('pf') loop joined by a socket pair: HOST lines
+    (some of whose hosts-file rewrite fails at chown) interleaved with accepted connections."""
+    import sshuttle.firewall as firewall
+    client, pfm, helpers = env.client, env.pfm, env.helpers
+    lport = case['lport']
+    proxy_ip = '127.0.0.1'
+    layd = PF_LAYOUTS['F']
+    tmp = tempfile.mkdtemp(prefix='c05sess')
+    hostsfile = os.path.join(tmp, 'hosts')
+    with open(hostsfile, 'w') as f:
+        f.write('127.0.0.1 localhost\n')
+    fail_names = set()
+    states = {}
+
+    def kernel(raw):
+        k = read_key(raw, layd)
+        key = (k['af'], k['proto'], k['direction'], bytes(k['saddr']), k['sport'], bytes(k['daddr']), k['dport'])
+        if key not in states:
+            return OSError(errno.ENOENT, 'No such file or directory')
+        a, p = states[key]
+        return a, p, layd
+
+    fake_os = types.ModuleType('os')
+    fake_os.__dict__.update(os.__dict__)
+
+    def chown(path, uid, gid):
+        # the OS refuses to touch the new hosts file when it holds a name scripted to fail
+        with open(path) as f:
+            txt = f.read()
+        if any((' %s ' % n) in txt for n in fail_names):
+            raise OSError(errno.EPERM, 'Operation not permitted')
+    fake_os.chown = chown
+
+    class FakeSubprocess:
+        PIPE = -1
+
+        @staticmethod
+        def call(argv, **kw):
+            return 1
+    procs = []
+
+    class ClientSubprocess:
+        PIPE = -1
+
+        @staticmethod
+        def Popen(argv, stdout=None, stdin=None, env=None, preexec_fn=None):
+            p = HelperProc(firewall, stdout)
+            procs.append(p)
+            return p
+
+    saved = []
+
+    def patch(obj, name, val):
+        saved.append((obj, name, getattr(obj, name)))
+        setattr(obj, name, val)
+
+    class HelperStdout:
+        # in the helper process fd 1 *is* the channel; pf.firewall_command prints its replies there
+        def write(self, text):
+            procs[-1].wf.write(text.encode('ASCII'))
+
+        def flush(self):
+            procs[-1].wf.flush()
+    fake_sys = types.ModuleType('sys')
+    fake_sys.__dict__.update(sys.__dict__)
+    fake_sys.stdout = HelperStdout()
+    patch(pfm, 'sys', fake_sys)
+    patch(pfm, 'pf', pf_instance(env, 'F'))
+    patch(pfm, 'pfctl', lambda args, stdin=None: (b'', b''))
+    patch(pfm, 'ssubprocess', FakeSubprocess)
+    patch(pfm, 'which', lambda name: '/sbin/' + name)
+    patch(firewall, 'setup_daemon', firewall.setup_daemon)
+    patch(firewall, 'flush_systemd_dns_cache', lambda: None)
+    patch(firewall, 'HOSTSFILE', hostsfile)
+    patch(firewall, 'os', fake_os)
+    patch(client, 'is_admin_user', lambda: True)
+    patch(client, 'ssubprocess', ClientSubprocess)
+    patch(helpers, 'logprefix', helpers.logprefix)
+    old_kernel, env.kernel = env.kernel, kernel
+    env.islocal_script = lambda ip: 'y' if ip == proxy_ip else 'n'
+    old_timeout = socket.getdefaulttimeout()
+    socket.setdefaulttimeout(5)
+    lg = Log('pf-session')
+    lg.add('sess new', 'ok')
+    bad = None
+    fw = None
+    try:
+        fw = client.FirewallClient('pf', False)
+        fw.setup([(AF4, '0.0.0.0', 0, 0, 0)], [], [], 0, lport, 0, 0, False, None, None, '0x01')
+        fw.start()
+        rec = RecFile(fw.pfile)
+        fw.pfile = rec
+        proc = procs[-1]
+        for i, op in enumerate(case['ops']):
+            if op[0] == 'host':
+                _, name, ip, fails = op
+                if fails:
+                    fail_names.add(name)
+                try:
+                    fw.sethostip(name.encode(), ip.encode())
+                except OSError as e:
+                    proc.wait(1.0)
+                    if proc.poll() is not None:
+                        break                      # the helper has ended: the client stops here
+                    raise e
+                lg.add('sess host %d' % (1 if fails else 0), '-')
+                continue
+            _, sport, addr_hex, port = op
+            addr = common.unhex(addr_hex)
+            src = ('10.0.0.7', sport)
+            states[(AF4, 6, 2, socket.inet_pton(AF4, src[0]), sport, socket.inet_pton(AF4, proxy_ip), lport)] = (addr, port)
+            sock = FakeSock(AF4, sockname=(proxy_ip, lport), peername=src)
+            mux = env.client_mux(chani=i)
+            n_reads = len(rec.reads)
+            exc = None
+            try:
+                client.onaccept_tcp(FakeListener(sock, src, ('0.0.0.0', lport)), fw.method, mux, [])
+            except Exception as e:  # noqa
+                exc = e
+            frames = [f for f in frames_of(mux) if f[1] == env.ssnet.CMD_TCP_CONNECT]
+            connects = []
+            for (c, cmd, payload) in frames:
+                env.reset_server()
+                env.connects = []
+                try:
+                    env.smux.got_packet(c, cmd, payload)
+                except Exception as e:  # noqa
+                    exc = exc or e
+                connects.extend(env.connects)
+            env.reset_server()
+            if not frames:
+                proc.wait(1.0)                       # dropped / failed: has the helper gone?
+            helper_alive = proc.poll() is None
+            if isinstance(exc, OSError) and not helper_alive and not frames:
+                break                                # write to the ended helper failed: the client stops here
+            want_reply = b'QUERY_PF_NAT_SUCCESS %s,%d\n' % (socket.inet_ntop(AF4, addr).encode(), port)
+            got = rec.reads[n_reads:]
+            lg.add('sess query ' + hexb(want_reply),
+                   ('line ' + hexb(got[0]) if got and got[0] else 'eof') if len(got) == 1 else 'reads=%d' % len(got))
+            what = None
+            if exc is not None:
+                what = ('C05:pf-session:unexpected-exception', repr(exc))
+            elif len(connects) > 1 or any(not same_dest(f, ip, p, addr, port) for f, ip, p in connects):
+                what = ('C05:pf-session:destination-differs', 'connect_dst calls %r' % (connects,))
+            elif not connects and helper_alive:
+                what = ('C05:pf-session:dropped-while-helper-alive',
+                        'closed=%d, no CONNECT, helper still running; the client read %r' % (sock.closed, got))
+            if what and bad is None:
+                bad = dict(key=what[0], op=i, expected='one CONNECT to %s port %d (or, once the helper has ended, a drop)'
+                           % (ipaddress.ip_address(addr), port), observed=what[1])
+    except Exception as e:  # noqa
+        if bad is None:
+            bad = dict(key='C05:pf-session:unexpected-exception', op=-1, expected='the session runs', observed=repr(e))
+    finally:
+        socket.setdefaulttimeout(old_timeout)
+        try:
+            if fw is not None:
+                fw.pfile.close()
+            for p in procs:
+                p.wait(3)
+        except Exception:  # noqa
+            pass
+        env.kernel = old_kernel
+        for obj, name, val in reversed(saved):
+            setattr(obj, name, val)
+        shutil.rmtree(tmp, ignore_errors=True)
+    logs.append(lg)
+    if bad is not None:
+        ctx.violation(bad['key'], case=case, expected=bad['expected'],
+                      observed=dict(op=bad['op'], what=bad['observed']),
+                      note='op #%d of the session (real FirewallClient <-> real firewall.main over a socket pair)' % bad['op'])
+    return bad
+
+
+def stream_pf_session(ctx, env, logs):
+    rng = ctx.rng
+    v4 = [a for a in v4_pool(rng, 80) if a[0] not in (0, 127) and a != b'\xff' * 4]
+    names = ['alpha.example', 'beta', 'gamma-1.example', 'delta_2', 'eps.example']
+    for k in range(ctx.scale(25, 600)):
+        ops = []
+        sport = 50000
+        nfail = 0
+        for _ in range(rng.randrange(3, 9)):
+            if rng.random() < 0.35:
+                fails = rng.random() < 0.3
+                nfail += fails
+                ops.append(['host', rng.choice(names), '10.9.0.%d' % rng.randrange(1, 255), bool(fails)])
+            else:
+                sport += 1
+                ops.append(['conn', sport, hexb(rng.choice(v4)), port_of(rng)])
+        if k % 3 == 0:                                 # always some sessions with a failing rewrite in the middle
+            ops.insert(rng.randrange(1, len(ops)), ['host', 'zeta.example', '10.9.1.1', True])
+            sport += 1
+            ops.append(['conn', sport, hexb(rng.choice(v4)), port_of(rng)])
+            sport += 1
+            ops.append(['conn', sport, hexb(rng.choice(v4)), port_of(rng)])
+        case = dict(stream='pf-session', lport=rng.choice([12300, 12299, 1024]), ops=ops)
+        run_pf_session(ctx, env, logs, case)
+        ctx.hist('pf-session:%s' % ('with-failing-rewrite' if any(o[0] == 'host' and o[3] for o in ops) else 'plain'))
+
+
 def stream_server_malformed(ctx, env, logs):
     """The real server closures on payloads no client of this version sends."""
     rng = ctx.rng
@@ -1351,6 +1634,7 @@ def run(ctx):
         stream_tcp(ctx, env, logs)
         stream_udp(ctx, env, logs)
         stream_udp_seq(ctx, env, logs)
+        stream_pf_session(ctx, env, logs)
         stream_server_malformed(ctx, env, logs)
         stream_pf_malformed(ctx, env, logs)
     finally:
@@ -1392,6 +1676,11 @@ def replay(ctx, rep):
         if case['stream'] == 'udp':
             sends = run_udp(ctx, env, logs, case)
             return bool(ctx.violations), 'sendto calls=%r' % (sends,)
+        if case['stream'] == 'pf-session':
+            bad = run_pf_session(ctx, env, logs, case)
+            return bad is not None, ('op #%d: expected %s; observed %s' % (bad['op'], bad['expected'], bad['observed'])
+                                     if bad else 'every connection of the session was forwarded to what it dialled '
+                                                 '(or dropped after the helper had ended)')
         if case['stream'] == 'udp-real':
             want, got, exc = run_udp_real(ctx, env, case)
             return bool(ctx.violations), 'sent to %r; recv_udp recovered %r (exception %r)' % (want, got, exc)
